@@ -249,6 +249,7 @@ func (t *tr) evCall(c *ast.CallExpr) []Term {
 			} else {
 				st := vt.Underlying().(*types.Slice)
 				es := t.V.W.sortOf(st.Elem())
+				eT := types.Type(st.Elem())
 				extra := c.Args[min(nfixed, len(c.Args)):]
 				if len(extra) == 0 {
 					args = append(args, t.V.W.zero(vt))
@@ -258,7 +259,7 @@ func (t *tr) evCall(c *ast.CallExpr) []Term {
 						els = append(els, t.evTo(a, st.Elem()))
 					}
 					arr := t.alloc()
-					h := t.elemHeap(es)
+					h := t.elemHeapT(eT, es)
 					contents := sel(t.read(h), arr)
 					for i, e := range els {
 						contents = store(contents, intLit(int64(i)), e)
@@ -607,8 +608,9 @@ func (t *tr) modLoc(l ast.Expr, sc *specCtx) []frameLoc {
 		i := t.spec(x.Index, sc)
 		if a.Sort == SSlice && a.T != nil {
 			es := t.V.W.sortOf(a.T.Underlying().(*types.Slice).Elem())
+			eT := types.Type(a.T.Underlying().(*types.Slice).Elem())
 			lo := add(slOff(a), i)
-			return []frameLoc{{heap: t.elemHeap(es), ref: slArr(a), lo: lo, hi: add(lo, intLit(1)), hasRange: true}}
+			return []frameLoc{{heap: t.elemHeapT(eT, es), ref: slArr(a), lo: lo, hi: add(lo, intLit(1)), hasRange: true}}
 		}
 		if m, ok := typeAsMap(a.T); ok {
 			return t.modMap(m, a)
@@ -618,6 +620,7 @@ func (t *tr) modLoc(l ast.Expr, sc *specCtx) []frameLoc {
 		a := t.spec(x.X, sc)
 		if a.Sort == SSlice && a.T != nil {
 			es := t.V.W.sortOf(a.T.Underlying().(*types.Slice).Elem())
+			eT := types.Type(a.T.Underlying().(*types.Slice).Elem())
 			lo, hi := Term(intLit(0)), slLen(a)
 			if x.Low != nil {
 				lo = t.spec(x.Low, sc)
@@ -625,7 +628,7 @@ func (t *tr) modLoc(l ast.Expr, sc *specCtx) []frameLoc {
 			if x.High != nil {
 				hi = t.spec(x.High, sc)
 			}
-			return []frameLoc{{heap: t.elemHeap(es), ref: slArr(a), lo: add(slOff(a), lo), hi: add(slOff(a), hi), hasRange: true}}
+			return []frameLoc{{heap: t.elemHeapT(eT, es), ref: slArr(a), lo: add(slOff(a), lo), hi: add(slOff(a), hi), hasRange: true}}
 		}
 		if m, ok := typeAsMap(a.T); ok {
 			return t.modMap(m, a)
@@ -636,7 +639,7 @@ func (t *tr) modLoc(l ast.Expr, sc *specCtx) []frameLoc {
 			switch id.Name {
 			case "elems": // elems(T): every slice element of type T anywhere
 				if T := t.resolveType(x.Args[0], sc.pkg); T != nil {
-					return []frameLoc{{heap: t.elemHeap(t.V.W.sortOf(T)), whole: true}}
+					return []frameLoc{{heap: t.elemHeapT(T, t.V.W.sortOf(T)), whole: true}}
 				}
 			case "allfields": // allfields(T): every field of every T object
 				if T := t.resolveType(x.Args[0], sc.pkg); T != nil {
@@ -693,7 +696,8 @@ func (t *tr) modObject(v Term, sc *specCtx) []frameLoc {
 		return t.modMap(u, v)
 	case *types.Slice:
 		es := t.V.W.sortOf(u.Elem())
-		return []frameLoc{{heap: t.elemHeap(es), ref: slArr(v), lo: slOff(v), hi: add(slOff(v), slLen(v)), hasRange: true}}
+		eT := types.Type(u.Elem())
+		return []frameLoc{{heap: t.elemHeapT(eT, es), ref: slArr(v), lo: slOff(v), hi: add(slOff(v), slLen(v)), hasRange: true}}
 	}
 	t.specErr(sc, "modifies: %s is not an object", v.S)
 	return nil
@@ -878,7 +882,8 @@ func (t *tr) evBuiltin(name string, c *ast.CallExpr) []Term {
 			}
 			arr := t.alloc()
 			es := W.sortOf(u.Elem())
-			h := t.elemHeap(es)
+			eT := types.Type(u.Elem())
+			h := t.elemHeapT(eT, es)
 			zeroArr := Term{S: fmt.Sprintf("((as const %s) %s)", arrSort(SInt, es), W.zeroOfSort(es, u.Elem()).S), Sort: arrSort(SInt, es)}
 			t.heapStore(h, arr, zeroArr)
 			r := mkSlice(arr, intLit(0), n, cp)
@@ -915,7 +920,8 @@ func (t *tr) evBuiltin(name string, c *ast.CallExpr) []Term {
 		n := app("imin", SInt, slLen(dst), slLen(src))
 		n.T = types.Typ[types.Int]
 		es := W.sortOf(dst.T.Underlying().(*types.Slice).Elem())
-		h := t.elemHeap(es)
+		eT := types.Type(dst.T.Underlying().(*types.Slice).Elem())
+		h := t.elemHeapT(eT, es)
 		old := t.read(h)
 		inner := t.havocSort("copied", arrSort(SInt, es))
 		t.heapStore(h, slArr(dst), inner)
@@ -967,7 +973,8 @@ func (t *tr) evAppend(c *ast.CallExpr) Term {
 		return t.havocTerm("append", T)
 	}
 	es := W.sortOf(st.Elem())
-	h := t.elemHeap(es)
+	eT := types.Type(st.Elem())
+	h := t.elemHeapT(eT, es)
 	if c.Ellipsis.IsValid() {
 		// append(s, xs...)
 		xs := t.ev(c.Args[1])
